@@ -237,12 +237,20 @@ class UnitEntry(HedSchemaEntry):
                 derivative_units[modifier.name + derived_unit] = self._get_conversion_factor(modifier_entry=modifier)
         self.derivative_units = derivative_units
 
+    @staticmethod
+    def _factor_from_text(factor_text):
+        """ A declared conversion factor as a number: a plain float, or base^exponent (10^6 is a million). """
+        base, caret, exponent = factor_text.partition("^")
+        if caret:
+            return float(base) ** float(exponent)
+        return float(factor_text)
+
     def _get_conversion_factor(self, modifier_entry):
         base_factor = modifier_factor = 1.0
         try:
-            base_factor = float(self.attributes.get(HedKey.ConversionFactor, "1.0").replace("^", "e"))
+            base_factor = self._factor_from_text(self.attributes.get(HedKey.ConversionFactor, "1.0"))
             if modifier_entry:
-                modifier_factor = float(modifier_entry.attributes.get(HedKey.ConversionFactor, "1.0").replace("^", "e"))
+                modifier_factor = self._factor_from_text(modifier_entry.attributes.get(HedKey.ConversionFactor, "1.0"))
         except (ValueError, AttributeError):
             pass  # Just default to 1.0
         return base_factor * modifier_factor
